@@ -299,6 +299,68 @@ func c12Prose(c *Ctx, idx int) {
 	}
 }
 
+// c12ByteHeavy: strings whose byte length and code point count fall on different sides of the
+// 16-bit (and 15-/17-bit) boundaries: 21845..21846 three-byte characters (65535 / 65538 bytes), 30010
+// code points in 90010 bytes, 32768 / 65535 two-byte characters, 16384 four-byte ones, and mixed text
+// - sliced forwards, backwards and with steps, near the start, around byte offset 65536 and at the
+// end.  Offsets kept in 16-bit (or 15-bit signed) tables wrap exactly here.
+type c12Heavy struct {
+	name string
+	unit string
+	n    int // code points
+}
+
+var c12Heavies = []c12Heavy{{"cjk-21845", "日", 21845}, {"cjk-21846", "本", 21846}, {"cjk-30000", "語", 30000}, {"two-byte-32768", "é", 32768}, {"two-byte-32769", "ü", 32769}, {"two-byte-65535", "é", 65535},
+	{"four-byte-16384", "𝌆", 16384}, {"four-byte-16385", "😀", 16385}, {"mixed-40000", "a日é𝌆b", 40000}, {"mixed-65535", "日a", 65535}, {"cjk-10923", "日", 10923}, {"cjk-43691", "日", 43691}, {"ascii-65537", "abcdefg", 65537}}
+
+var c12HeavyDocs = map[int]*ref.Obj{}
+
+func c12ByteHeavyN(c *Ctx) int { return len(c12Heavies) * 4 }
+
+func c12ByteHeavy(c *Ctx, idx int) {
+	h := c12Heavies[idx%len(c12Heavies)]
+	part := idx / len(c12Heavies)
+	doc := c12HeavyDocs[idx%len(c12Heavies)]
+	if doc == nil {
+		unit := []rune(h.unit)
+		var b strings.Builder
+		b.WriteString("start-")
+		for i := 0; i < h.n; i++ {
+			b.WriteRune(unit[i%len(unit)])
+		}
+		b.WriteString("-end")
+		doc = ref.NewObj()
+		doc.Set("s", b.String())
+		c12HeavyDocs[idx%len(c12Heavies)] = doc
+	}
+	goDoc := ref.ToGo(doc, ref.JSONNumber)
+	n := h.n + 10
+	var forms []string
+	switch part {
+	case 0:
+		forms = []string{"s[::-1] | [@[:8], @[-8:], length(@)]", "s[-1:-8:-1]", "s[::-7] | [@[:5], @[-5:], length(@)]", "s[:-3:-1]", "s[::-1][::-1] == s", fmt.Sprintf("s[%d:%d:-3]", n-20, n-40), fmt.Sprintf("s[%d::-1000]", n-1)}
+	case 1:
+		forms = []string{"s[-8:]", "s[-8:-2]", fmt.Sprintf("s[%d:]", n-5), fmt.Sprintf("s[%d:%d]", n/2, n/2+9), fmt.Sprintf("s[%d:%d]", n-30, n-21), "s[:9]", "s[3:12]", "length(s)", "s[:-1] | length(@)", "reverse(s)[:8]", "s | [-4:]"}
+	case 2:
+		forms = []string{"s[::2] | [@[:5], @[-5:], length(@)]", "s[1::3] | [@[-5:], length(@)]", fmt.Sprintf("s[%d::7]", n-50), fmt.Sprintf("s[%d:%d:2]", n*3/4, n*3/4+20), "s[::1000]", "s[::-1000]", fmt.Sprintf("s[::%d]", n-1), "s[5::16384]", "s[::-16385]"}
+	default:
+		// around the code points whose byte offsets are 32768, 65536 and 131072
+		for _, off := range []int{32768, 65536, 131072} {
+			k := 6 + (off-6)/len(h.unit)*len([]rune(h.unit))
+			if k+12 >= n || k < 12 {
+				continue
+			}
+			forms = append(forms, fmt.Sprintf("s[%d:%d]", k-6, k+6), fmt.Sprintf("s[%d:%d:-1]", k+6, k-6), fmt.Sprintf("s[%d:%d:2]", k-8, k+8), fmt.Sprintf("s[:%d] | [@[-6:], length(@)]", k+1), fmt.Sprintf("s[%d:] | [@[:6], length(@)]", k-1), fmt.Sprintf("s[:%d][-3:]", k+3), fmt.Sprintf("s[:%d][:-3] | length(@)", k+3), fmt.Sprintf("find_first(s, '-end', `%d`)", k), fmt.Sprintf("find_last(s, 'start', `0`, `%d`)", k))
+		}
+	}
+	for _, f := range forms {
+		m, _ := c.CheckModel("C12", f, doc, goDoc, CheckOpts{Features: map[string]string{"stream": "byte-heavy", "subject": h.name}})
+		if !m.Unspec {
+			c.Nontrivial(f, h.name)
+		}
+	}
+}
+
 // c12Periodic: long strings made by repeating a short unit of characters of different widths, so
 // that the byte length is an exact multiple (2x, 3x) of the code point count although the characters
 // are not all of that width - and the same strings with one more character, where it is not.  Any
@@ -345,6 +407,7 @@ func init() {
 			{Name: "prose", N: func(c *Ctx) int { return tierN(c, 600, 60000) }, Run: c12Prose},
 			{Name: "long", N: c12LongN, Run: c12Long, Exhaustive: true},
 			{Name: "periodic", N: c12PeriodicN, Run: c12Periodic, Exhaustive: true},
+			{Name: "byte-heavy", N: c12ByteHeavyN, Run: c12ByteHeavy, Exhaustive: true},
 			{Name: "direct", N: func(c *Ctx) int { return tierN(c, 40000, 8000000) }, Run: c12Direct},
 		},
 	})
